@@ -173,6 +173,70 @@ def direction_c(ctx):
 ZIPMODES = ["none", "def", "l1", "l9", "rle", "fixed", "stored", "framed", "huff"]
 
 
+def rare_values(ctx, rng, curve):
+    """values that turn up once in 2^8 .. 2^16 random tokens, made on purpose: a shared secret Z that starts with zero octets, CEKs / IVs /
+    salts made of 0x00 and 0xFF or with zero octets at either end.  Tokens by the reference, read by joserfc."""
+    from refjose import jwe as rjwe
+    from refjose.keys import RefKey
+    j = J.load()
+    pt = b"c08 rare values"
+    rk = g.curve_key(curve)
+    ref = RefKey.from_jwk(rk)
+    # an ephemeral key whose shared secret with the recipient starts with a zero octet
+    found = []
+    for _ in range(4000):
+        epk, d = rjwe.gen_ephemeral(ref)
+        z = rjwe.ecdh(None, d, ref)
+        if z[0] == 0:
+            found.append((epk, d, z))
+            if len(found) >= 2 or (z[0] == 0 and z[1] == 0):
+                break
+        if ctx.out_of_time():
+            break
+    ctx.count("rare_z_found", len(found))
+    for epk, d, z in found:
+        for alg, enc in (("ECDH-ES", "A128GCM"), ("ECDH-ES+A128KW", "A256CBC-HS512"), ("ECDH-ES+A256KW", "A128GCM")):
+            ctx.ev()
+            tok, info = rjwe.encrypt({"alg": alg, "enc": enc, "epk": epk}, pt, [{"header": None, "key": ref.public(), "sender": None, "epk_priv": d}], form="compact")
+            o = call(j.jwe.decrypt_compact, tok, j.key(rk), algorithms=[alg, enc])
+            ctx.count("b_checked")
+            ctx.count("rare_value_tokens")
+            ctx.nontrivial(("rare-z", curve, alg, z[:2].hex()))
+            ctx.cell("B-rare", "Z-leading-zero", curve, alg)
+            if not o.ok or o.value.plaintext != pt:
+                ctx.violation(f"foreign-rejected:rare:Z-leading-zero:{alg}", f"{alg} on {curve} with a shared secret starting {z[:3].hex()}: joserfc "
+                              f"{'rejects: ' + repr(o.exc) if not o.ok else 'returns another plaintext'}", {"dir": "B-rare", "curve": curve, "alg": alg, "token": tok, "key": rk})
+    # CEK / IV patterns
+    for enc in ("A128GCM", "A256CBC-HS512", "A192GCM", "C20P"):
+        cl, il = rjwe.ENC[enc]
+        ceks = [b"\0" * cl, b"\xff" * cl, b"\0" + rng.randbytes(cl - 1), rng.randbytes(cl - 1) + b"\0", b"\0" * (cl // 2) + rng.randbytes(cl - cl // 2)]
+        ivs = [b"\0" * il, b"\xff" * il, b"\0" + rng.randbytes(il - 1)]
+        for alg in ("A128KW", "RSA-OAEP", "A256GCMKW", "PBES2-HS256+A128KW", "ECDH-ES+A128KW"):
+            k2, _ = g.keys_for(alg, enc, curve)
+            for ci, cek in enumerate(ceks):
+                ctx.ev()
+                iv = ivs[ci % len(ivs)]
+                hdr = {"alg": alg, "enc": enc}
+                if alg.startswith("PBES2"):
+                    hdr["p2s"] = b64u_enc([b"\0" * 16, b"\xff" * 8, b"\0" + rng.randbytes(15), rng.randbytes(15) + b"\0", b"\0\0\0\0\0\0\0\1"][ci])
+                try:
+                    tok, info = rjwe.encrypt(hdr, pt, [{"header": None, "key": RefKey.from_jwk(k2).public() if k2["kty"] != "oct" else RefKey.from_jwk(k2), "sender": None}],
+                                             form="compact", cek=cek, iv=iv, p2c=1000)
+                except Exception as e:  # pragma: no cover
+                    ctx.count("rare_value_build_failed")
+                    continue
+                if enc == "C20P":
+                    J.register_drafts()
+                o = call(j.jwe.decrypt_compact, tok, j.key(k2), algorithms=[alg, enc])
+                ctx.count("b_checked")
+                ctx.count("rare_value_tokens")
+                ctx.nontrivial(("rare-cek", enc, alg, ci))
+                ctx.cell("B-rare", "cek-iv-pattern", enc, alg)
+                if not o.ok or o.value.plaintext != pt:
+                    ctx.violation(f"foreign-rejected:rare:cek-iv-pattern:{alg}", f"{alg}/{enc} with CEK {cek.hex()[:24]}.. and IV {iv.hex()[:16]}..: joserfc "
+                                  f"{'rejects: ' + repr(o.exc) if not o.ok else 'returns another plaintext'}", {"dir": "B-rare", "enc": enc, "alg": alg, "token": tok, "key": k2})
+
+
 def run_shard(ctx):
     sc = selfcheck.run()
     if sc["failed"]:
@@ -184,6 +248,8 @@ def run_shard(ctx):
     rng = ctx.rng
     if ctx.shard == 0:
         direction_c(ctx)
+    if 7 <= ctx.shard <= 12:
+        rare_values(ctx, rng, g.ECDH_CURVES[ctx.shard - 7])
     if ctx.shard == 6:
         # tokens joserfc produces from an object it parsed before (a gateway forwarding what it received, possibly with another AAD or another
         # protected member) are read by the reference as well: the cases are C04's, the reference verdict is what counts here
